@@ -8,7 +8,7 @@ import (
 )
 
 const (
-	c10MaxDur    = 1 << 42 // ns (~73 min); stated bound
+	c10MaxDur    = 1 << 47 // ns (~39 h); stated bound
 	c10MaxTarget = 1 << 20
 )
 
@@ -87,7 +87,7 @@ func VerifC10_StagedSelection() {
 	e1, e2 := zz.Int64("e1"), zz.Int64("e2")
 	zz.Assume(0 <= e1)
 	zz.Assume(e1 <= e2)
-	zz.Assume(e2 < 1<<44)
+	zz.Assume(e2 < 1<<49)
 	sum := int64(0)
 	for i := 0; i < n; i++ {
 		sum += int64(st[i].Duration)
